@@ -129,6 +129,25 @@ def reoutline(repo, inv) -> Dict[str, str]:
             if hit is None:
                 continue
             block, i, n, m, target = hit
+            # a local the run binds and the host still reads after the run (other than the value handed back) would be
+            # left unbound in the host: such a run is not folded back - the rules see the inlined form instead
+            run_ = block[i:i + n]
+            bound_in_run = {x.id for s_ in run_ for x in ast.walk(s_) if isinstance(x, ast.Name) and isinstance(x.ctx, ast.Store)}
+            handed_back = set()
+            if ret is not None and target == "assign":
+                handed_back = {t_.id for t_ in block[i + n].targets if isinstance(t_, ast.Name)}
+            after = block[i + n + (1 if ret is not None else 0):]
+            outer_reads = set()
+            for s_ in after:
+                for x in ast.walk(s_):
+                    if isinstance(x, ast.Name) and isinstance(x.ctx, ast.Load):
+                        outer_reads.add(x.id)
+            params_host = {a.arg for a in host.node.args.posonlyargs + host.node.args.args + host.node.args.kwonlyargs}
+            bound_before = {x.id for s_ in block[:i] for x in ast.walk(s_) if isinstance(x, ast.Name) and isinstance(x.ctx, ast.Store)} | params_host
+            leaking = (bound_in_run & outer_reads) - handed_back - bound_before
+            if leaking and ret is not None:
+                # the value handed back may itself be named by the leaking local (`t = E` with later reads of a run local)
+                continue
             # parameters of the helper = what its reference parameters were unified with
             m.pop("\0ret", None)
             pnames = [m.get(p, p) for p in params]
